@@ -109,6 +109,15 @@ ConsumeLine ==
   /\ l <= N /\ l' = l + 1 /\ flushed' = FALSE
   /\ LET r == Rec[l] IN
      IF r.c = "reset" THEN Reset(r)
+     ELSE IF r.c = "su" THEN
+       \* a call of the device start-up (full-stack runs; judged by StartupTrace.tla): here only the environment is replayed -
+       \* what arrived, what the opener consumed - so that the loop part starts with the right buffer. The loop's own
+       \* registration (EPOLL_CTL_ADD) reports a descriptor that is readable already.
+       LET kq1 == kq \o r.arrK
+           kq2 == IF r.k = "read" /\ r.res = "one" THEN Tail(kq1) ELSE kq1 IN
+       /\ viol' = viol \cup Tag(r.k = "read" /\ r.res = "one" /\ (kq1 = <<>> \/ Head(kq1) # r.e), "ENV-wrong-event")
+       /\ kq' = kq2 /\ kN' = (kq2 # <<>>) /\ prevOut' = r.tout
+       /\ UNCHANGED <<cur, opt, lay, cs, tq, tN, ended, failed, errmsg, inTab, afterTab, tabCleared, held, phys, must, pend, onJust, prevTimeout>>
      ELSE IF r.c = "ret" THEN
        /\ viol' = viol \cup Owed
                     \cup Tag(r.panic, "C10-loop-panicked")
